@@ -328,14 +328,25 @@ class Seams:
                 continue
             if id_fn is not None:
                 self._set(mod, "id", id_fn)
-            if time_obj is not None and d.get("time") is _real_time:
-                self._set(mod, "time", time_obj)
+            if time_obj is not None:
+                if d.get("time") is _real_time:
+                    self._set(mod, "time", time_obj)
+                # `from time import time, perf_counter, ...` style bindings
+                for nm, val in list(d.items()):
+                    for fn in ("time", "perf_counter", "monotonic", "process_time", "time_ns", "sleep"):
+                        if val is getattr(_real_time, fn):
+                            self._set(mod, nm, getattr(time_obj, fn))
             if random_obj is not None and d.get("random") is random:
                 self._set(mod, "random", random_obj)
             if parallel_cls is not None and d.get("Parallel") is joblib.Parallel:
                 self._set(mod, "Parallel", parallel_cls)
             if pool_cls is not None and d.get("ProcessPoolExecutor") is cf.ProcessPoolExecutor:
                 self._set(mod, "ProcessPoolExecutor", pool_cls)
+        # attribute-style use (`joblib.Parallel(...)`, `concurrent.futures.ProcessPoolExecutor(...)`)
+        if parallel_cls is not None:
+            self._set(joblib, "Parallel", parallel_cls)
+        if pool_cls is not None:
+            self._set(cf, "ProcessPoolExecutor", pool_cls)
         self.installed = True
 
     def uninstall(self) -> None:
